@@ -391,23 +391,7 @@ def r_C17ad_C22b(root):
     for s in own_nodes(up):
         if isinstance(s, ast.Assign) and ast.unparse(s.targets[0]) == "myfilename" and "_tx_filename" in ast.unparse(s.value) and "abspath" not in ast.unparse(s.value):
             out.append(Finding("C17", "C17.d", S, "update_model_in_repo_based_on_filename", ast.unparse(s), "file key stored without abspath normalisation"))
-    # C22.b comment wiring
-    vm = find_i(root, L, "TextXVisitor.visit_textx_model"); inst += 1
-    fvm = sem.info(vm)
-    gmp = next((c for c in calls(vm) if callee_name(c) == "get_model_parser"), None)
-    okcm = False
-    if gmp is not None and len(gmp.args) >= 2 and isinstance(gmp.args[1], ast.Name):
-        n_ = fvm.node_of(gmp); ds = fvm.rd.defs_of(n_, gmp.args[1].id)
-        vals = []
-        for d_ in ds:
-            a_ = fvm.cfg.nodes[d_].ast
-            if isinstance(a_, ast.Assign): vals.append((ast.unparse(fvm.expand(a_.value, at=a_)).replace(" ", ""), [(x.replace(" ", ""), p) for x, p in fvm.atoms_at(a_)]))
-        has_rule = any(v == "self.metamodel['Comment']._tx_peg_rule" and ("'Comment'inself.metamodel", True) in at for v, at in vals)
-        has_none = any(v == "None" for v, at in vals)
-        okcm = has_rule and (has_none or len(vals) == 1)
-        if not okcm and len(vals) == 1 and vals[0][0] == "self.metamodel['Comment']._tx_peg_ruleif'Comment'inself.metamodelelseNone": okcm = True
-    if not okcm:
-        out.append(Finding("C22", "C22.b", L, "TextXVisitor.visit_textx_model", "comments_model", "the grammar's Comment rule is not wired as the parser's comment model"))
+    # C22.b (the grammar's Comment rule becomes the parser's comment model) is decided by evaluation: C01.d above
     return inst, out
 ALL = [r_C23, r_C03bc, r_C02ab, r_C19a_C01, r_C17ad_C22b]
 if __name__ == "__main__":
